@@ -126,6 +126,26 @@ def program(E, cfg):
         c, m = res.integral()
         E.prove(E.eq(c, sum(y for _, y, _ in exp)), "integral of the sum counts every event once")
         E.prove(E.eq(m, sum(mm for _, _, mm in exp)), "multiplicity of the sum counts every event once")
+        # the sum is an independent object: scaling it afterwards must not reach the operands
+        # (and what the operands answer must not depend on what was done to the sum)
+        before = [g.integral() for g in fs[1:]]
+        fac = E.fresh("fac")
+        res.mul_scalar(fac)
+        if len(res.x) == len(exp) + 2:
+            for k, (t, y, mm) in enumerate(exp):
+                E.prove(E.eq(res.y[k + 1], y * fac), "mul_scalar scales the values of the sum")
+                E.prove(E.eq(res.mp[k + 1], mm), "mul_scalar leaves the multiplicities")
+        c2, m2 = res.integral()
+        E.prove(E.eq(c2, fac * sum(y for _, y, _ in exp)), "integral after scaling = scaled integral (no stale state)")
+        E.prove(E.eq(m2, sum(mm for _, _, mm in exp)), "multiplicity after scaling unchanged")
+        for g, sn, b4 in zip(fs[1:], snaps, before):
+            ok = all(getattr(g, nm) is arr and len(arr) == len(el) and
+                     all((a is b) or (E.mode == "concrete" and a == b) for a, b in zip(arr, el))
+                     for nm, arr, el in sn)
+            E.prove(ok, "scaling the sum does not modify the added operand")
+            af = g.integral()
+            E.prove(E.eq(af[0], b4[0]), "operand's integral unaffected by operations on the sum (values)")
+            E.prove(E.eq(af[1], b4[1]), "operand's integral unaffected by operations on the sum (multiplicities)")
         return
     if what in ("integral", "two"):
         f, ev = mkdisc(E, "f", cfg["n"], ts, te)
